@@ -26,6 +26,7 @@ structure Grammar.OkPath (G : Grammar) : Prop where
   noColon : ∀ u, Matches G.segmentNz u → cColon ∉ u → Matches G.segmentNzNc u
   segNz_noSlash : ∀ u, Matches G.segmentNz u → cSlash ∉ u
   segNz_ne : ∀ u, Matches G.segmentNz u → u ≠ []
+  seg_append : ∀ u v, Matches G.segment u → Matches G.segment v → Matches G.segment (u ++ v)
 
 /-! ## generic regex facts -/
 
@@ -233,6 +234,9 @@ theorem okPath_of_shape (G : Grammar) (ok : Grammar.Ok G) (A B C : RE)
     subst hne
     have := matches_nil_iff.mp h
     rw [ok.segNz_ne] at this; cases this
+  seg_append u v hu hv := by
+    rw [hseg] at hu hv ⊢
+    exact star_append hu hv
 
 theorem uriG_okPath : Grammar.OkPath uriG :=
   okPath_of_shape uriG uriG_ok Rfc3986.unreserved Rfc3986.pctEncoded Rfc3986.subDelims rfl rfl rfl
